@@ -3,6 +3,7 @@ package main
 import (
 	"encoding/json"
 	"fmt"
+	"math"
 	"sort"
 	"strings"
 
@@ -81,13 +82,23 @@ func flipOp(op string) string {
 	return op
 }
 
+// c04Col writes a column reference; a name that is no plain word is given as a quoted (literal) key
+func c04Col(alias, name string) string {
+	for _, r := range name {
+		if !(r == '_' || r >= '0' && r <= '9' || r >= 'a' && r <= 'z' || r >= 'A' && r <= 'Z') {
+			return fmt.Sprintf("%s.`'%s'`", alias, name)
+		}
+	}
+	return alias + "." + name
+}
+
 func (n *c04Node) sql() string {
 	if n.Leaf != nil {
 		c := n.Leaf
 		if c.Flip {
-			return fmt.Sprintf("y.%s %s x.%s", c.R, flipOp(c.Op), c.L)
+			return fmt.Sprintf("%s %s %s", c04Col("y", c.R), flipOp(c.Op), c04Col("x", c.L))
 		}
-		return fmt.Sprintf("x.%s %s y.%s", c.L, c.Op, c.R)
+		return fmt.Sprintf("%s %s %s", c04Col("x", c.L), c.Op, c04Col("y", c.R))
 	}
 	return fmt.Sprintf("(%s %s %s)", n.Left.sql(), n.Conn, n.Right.sql())
 }
@@ -186,14 +197,23 @@ func genC04(t *rapid.T) *Bundle {
 	// schema: 1-3 column pairs; names chosen so that per-side name order
 	// differs from pair order
 	npairs := rapid.IntRange(1, 3).Draw(t, "npairs")
-	lnames := rapid.Permutation([]string{"a", "z", "m", "k"}).Draw(t, "lnames")[:npairs]
-	rnames := rapid.Permutation([]string{"m", "b", "a", "c"}).Draw(t, "rnames")[:npairs]
+	// (names that are no plain words - "k-1", "user id" - are written as quoted keys)
+	lnames := rapid.Permutation([]string{"a", "z", "m", "k", "k-1"}).Draw(t, "lnames")[:npairs]
+	rnames := rapid.Permutation([]string{"m", "b", "a", "c", "user id"}).Draw(t, "rnames")[:npairs]
 	using := rapid.IntRange(0, 7).Draw(t, "using") == 0
 	if using {
+		// USING takes plain identifiers
+		for i, nm := range lnames {
+			if strings.ContainsAny(nm, "- ") {
+				lnames[i] = fmt.Sprintf("w%d", i)
+			}
+		}
 		rnames = append([]string{}, lnames...)
 	}
 	tricky := rapid.IntRange(0, 6).Draw(t, "tricky") == 0
 	bigNums := rapid.IntRange(0, 5).Draw(t, "big_nums") == 0
+	// fractions and the negative zero: with Go ints on one side the comparison crosses numeric types
+	fractions := rapid.IntRange(0, 4).Draw(t, "fractions") == 0
 	var pairs []c04Cmp
 	for i := 0; i < npairs; i++ {
 		pairs = append(pairs, c04Cmp{L: lnames[i], R: rnames[i], IsStr: rapid.Bool().Draw(t, "is_str")})
@@ -211,6 +231,8 @@ func genC04(t *rapid.T) *Bundle {
 					row[nm] = rapid.SampledFrom(strDom).Draw(t, side+"s")
 				} else if bigNums {
 					row[nm] = float64(rapid.SampledFrom([]int{1, 2, 1000000, 2000000, 12345678}).Draw(t, side+"n"))
+				} else if fractions {
+					row[nm] = rapid.SampledFrom([]float64{1, 2, 1.5, 2.5, 0, math.Copysign(0, -1)}).Draw(t, side+"f")
 				} else {
 					row[nm] = float64(rapid.IntRange(1, 3).Draw(t, side+"n"))
 				}
@@ -315,6 +337,9 @@ func genC04(t *rapid.T) *Bundle {
 	}
 	if using {
 		tags = append(tags, "using")
+	}
+	if fractions {
+		tags = append(tags, "fractions")
 	}
 	if big {
 		tags = append(tags, "big_table")
@@ -497,6 +522,28 @@ func corpusC04() []*Bundle {
 				mk("empty-right", typ, leaf("a", "m", "=", false), lt, []any{}, strat),
 				mk("empty-left", typ, leaf("a", "m", ">=", false), []any{}, rt, strat),
 			)
+		}
+	}
+	// keys that are no plain words (written as quoted keys), fractions against Go ints, the negative zero
+	qt := []any{
+		map[string]any{"id": num(1), "k-1": num(1), "a": num(2)},
+		map[string]any{"id": num(2), "k-1": num(2), "a": math.Copysign(0, -1)},
+		map[string]any{"id": num(3), "k-1": num(2), "a": num(0)},
+	}
+	qu := []any{
+		map[string]any{"id": num(7), "user id": num(2), "m": num(2.5)},
+		map[string]any{"id": num(8), "user id": num(3), "m": num(0)},
+		map[string]any{"id": num(9), "user id": num(1), "m": num(1.5)},
+	}
+	for _, typ := range []string{"inner", "left", "right"} {
+		for _, op := range []string{"=", "<=", "!="} {
+			out = append(out, mk("quoted-keys"+op, typ, leaf("k-1", "user id", op, false), qt, qu, "walk"))
+			for _, flip := range []bool{false, true} {
+				b := mk(fmt.Sprintf("fraction-vs-int%s-flip-%v", op, flip), typ, leaf("a", "m", op, flip), qt, qu, "walk")
+				b.Case.NativeIntKeys = []string{"t"}
+				out = append(out, b)
+				out = append(out, mk(fmt.Sprintf("negative-zero%s-flip-%v", op, flip), typ, leaf("a", "m", op, flip), qt, qu, "walk"))
+			}
 		}
 	}
 	return out
